@@ -1,13 +1,107 @@
-(* IgnoreCase, general class-level statement (end): addLowercase and the closure theorem. *)
+(* IgnoreCase, general class-level statement (end): addLowercase and the closure theorem.
+
+   Two kinds of code-point members are handled:
+     - members of good_dom (the good part of the finite table), as before;
+     - "big" members (only when the flag B holds; B -> outside_ok simple_fold): members of a run that
+       covers at least U+0080..U+FFFF+1, in a class that also names 'i' or 'I'.  These come from
+       complement-shaped ranges such as [b-\x{10FFFF}].  Most of their runes lie outside the table;
+       what is used about them is the closed fact lc_big_facts about lcTable (the lower-case image of
+       a rune >= U+0080 stays in U+0080..U+10000, except U+0130 -> 'i') and outside_ok (SimpleFold
+       orbits of runes outside the table stay outside the table). *)
 From Coq Require Import FMapPositive ZifyBool.
 From Verif Require Import Base.Prelude Model.CharClass Model.FoldD
   Proofs.CharClassRanges Proofs.CharClassProofs Proofs.CharClassFold Proofs.CharClassFoldThm
   Proofs.CharClassCi Proofs.CharClassCi2.
 
+(* SimpleFold outside the finite table: every orbit closes within orbit_fuel steps and never enters
+   the table (nor leaves the code-point range).  True of unicode.SimpleFold because the table is closed
+   under it; checked on every code point against the running toolchain by leg c16-class-0. *)
+Definition outside_ok (simple_fold : Z -> Z) : Prop :=
+  forall x, valid_rune x -> ~ In x dom_t ->
+    exists l, case_equivalences simple_fold orbit_fuel x = Ok l /\
+              forall y, In y l -> valid_rune y /\ ~ In y dom_t.
+
+(* all of ASCII and all of pair_dom are admissible members under IgnoreCase; exactly three runes of
+   the table are not *)
+Lemma bad_points_ok :
+  bad_pts = [215; 304; 7838] /\
+  forallb (fun x => zmem x good_dom) (ascii_dom ++ pair_dom) = true.
+Proof.
+  split; [vm_compute; reflexivity|].
+  change ((fun g => forallb (fun x => zmem x g) (ascii_dom ++ pair_dom)) good_dom = true).
+  vm_compute. reflexivity.
+Qed.
+
+Lemma ascii_good x : 0 <= x < 128 -> In x good_dom.
+Proof.
+  intros H. pose proof (proj2 bad_points_ok) as G. rewrite forallb_forall in G.
+  apply zmem_In. apply G. apply in_or_app. left. apply in_ascii_dom. exact H.
+Qed.
+
+Lemma pair_good x : In x pair_dom -> In x good_dom.
+Proof.
+  intros H. pose proof (proj2 bad_points_ok) as G. rewrite forallb_forall in G.
+  apply zmem_In. apply G. apply in_or_app. right. exact H.
+Qed.
+
+(* the runes lo .. hi *)
+Definition span_pts (lo hi : Z) : list Z := map (fun i => lo + Z.of_nat i) (seq 0 (Z.to_nat (hi - lo + 1))).
+
+Lemma span_pts_In lo hi x : lo <= x <= hi -> In x (span_pts lo hi).
+Proof.
+  intros H. unfold span_pts. apply in_map_iff. exists (Z.to_nat (x - lo)). split; [lia|]. apply in_seq. lia.
+Qed.
+
+(* lcTable on runes from U+0080 on: the image stays inside U+0080..U+10000, except U+0130 -> 'i' *)
+Definition lc_big_ok : bool :=
+  forallb (fun e : Z * Z * Z * Z =>
+             let '(lmin, lmax, op, data) := e in
+             forallb (fun x => (x <? 128) || ((x =? 304) && (op_apply op data x =? 105)) ||
+                               ((128 <=? op_apply op data x) && (op_apply op data x <=? 65536)))
+                     (span_pts lmin lmax)) lc_table.
+Lemma lc_big_true : lc_big_ok = true.
+Proof. vm_compute. reflexivity. Qed.
+
+Lemma lc_big_facts e x : In e lc_table -> entry_covers e x -> 128 <= x ->
+  (x = 304 /\ entry_op e x = 105) \/ 128 <= entry_op e x <= 65536.
+Proof.
+  intros He Hc Hx. pose proof lc_big_true as H. unfold lc_big_ok in H. rewrite forallb_forall in H.
+  specialize (H e He). destruct e as [[[lmin lmax] op] data]. cbn [entry_covers entry_op] in *.
+  rewrite forallb_forall in H. specialize (H x (span_pts_In lmin lmax x Hc)). lia.
+Qed.
+
+Lemma i_in_orb_I : In 73 dom_t /\ In 105 (orb 73).
+Proof. split; apply zmem_In; vm_compute; reflexivity. Qed.
+
+Lemma dom_bounds x : In x dom_t -> 0 <= x < max_rune - 1.
+Proof. intros H. destruct (rel_facts x H) as (_ & _ & Bd & _). exact Bd. Qed.
+
+Lemma dom_valid z : In z dom_t -> valid_rune z.
+Proof. intros H. pose proof (dom_bounds z H). unfold valid_rune. lia. Qed.
+
+Lemma orb_in_dom x y : In x dom_t -> In y (orb x) -> In y dom_t.
+Proof. intros Hx Hy. destruct (rel_facts x Hx) as (F & _). apply (F y Hy). Qed.
+
+Lemma dom_dec x : In x dom_t \/ ~ In x dom_t.
+Proof.
+  destruct (zmem x dom_t) eqn:E; [left; apply zmem_In; exact E|].
+  right. intros H. apply zmem_In in H. congruence.
+Qed.
+
+Lemma mem_valid rs y : wf_ranges rs -> mem rs y = true -> valid_rune y.
+Proof.
+  intros Hw Hy. apply mem_true_iff in Hy. destruct Hy as [r [Hr Hy]].
+  unfold wf_ranges in Hw. rewrite Forall_forall in Hw. destruct (Hw r Hr) as (W1 & W2 & W3).
+  unfold valid_rune. lia.
+Qed.
+
 Section Closure.
   Variable cat_in : Z -> Z -> bool.
   Variable simple_fold to_lower : Z -> Z.
   Hypothesis agree : forall x, In x dom_t -> simple_fold x = fold_t x /\ to_lower x = lower_t x.
+  (* B: big members are admitted *)
+  Variable B : Prop.
+  Hypothesis Hout : B -> outside_ok simple_fold.
 
   Definition lower_single (r : Z * Z) : Z * Z :=
     if fst r =? snd r then (to_lower (fst r), to_lower (fst r)) else r.
@@ -17,88 +111,229 @@ Section Closure.
   Definition lowered (R : list (Z * Z)) : list (Z * Z) :=
     map lower_single R ++ flat_map (fun r => lowercase_range (fst r) (snd r)) (filter is_multi R).
 
-  Lemma dom_bounds x : In x dom_t -> 0 <= x < max_rune - 1.
-  Proof. intros H. destruct (rel_facts x H) as (_ & _ & B & _). exact B. Qed.
+  (* the admissible code-point members, as a predicate on the membership function of a class *)
+  Definition okp (L : Z -> bool) : Prop :=
+    forall x, L x = true ->
+      In x good_dom \/
+      (B /\ valid_rune x /\ (forall y, 128 <= y <= Z.max x 65536 -> L y = true) /\ (L 105 = true \/ L 73 = true)).
 
-  Lemma orb_in_dom x y : In x dom_t -> In y (orb x) -> In y dom_t.
-  Proof. intros Hx Hy. destruct (rel_facts x Hx) as (F & _). apply (F y Hy). Qed.
+  Lemma okp_good (L : Z -> bool) : (forall x, L x = true -> In x good_dom) -> okp L.
+  Proof. intros H x Hx. left. apply H. exact Hx. Qed.
+
+  Lemma okp_ext (L L' : Z -> bool) : (forall x, L x = L' x) -> okp L -> okp L'.
+  Proof.
+    intros E H x Hx. rewrite <- E in Hx. destruct (H x Hx) as [G|(G1 & G2 & G3 & G4)]; [left; exact G|].
+    right. split; [exact G1|]. split; [exact G2|]. split; [intros y Hy; rewrite <- E; apply G3; exact Hy|].
+    rewrite <- !E. exact G4.
+  Qed.
+
+  (* ---------------------------------------------------------------- the equivalences, whatever the runes *)
+  Definition ceq (x : Z) : list Z :=
+    match case_equivalences simple_fold orbit_fuel x with Ok l => l | _ => [] end.
+
+  Lemma ceq_dom x : In x dom_t -> x :: ceq x = orb x.
+  Proof.
+    intros H. destruct (case_equivalences_agree cat_in simple_fold to_lower agree x H) as (l & Hl & Ho).
+    unfold ceq. rewrite Hl. exact Ho.
+  Qed.
+
+  Lemma equivalences_of_range_gen : forall n lo,
+    (forall x, lo <= x < lo + Z.of_nat n -> exists l, case_equivalences simple_fold orbit_fuel x = Ok l) ->
+    exists L, equivalences_of_range simple_fold orbit_fuel lo n = Ok (map (fun x : Z => (x, x)) L) /\
+              forall z, In z L <-> exists x, lo <= x < lo + Z.of_nat n /\ In z (ceq x).
+  Proof.
+    induction n as [|n IH]; intros lo Hd.
+    - exists []. split; [reflexivity|]. intros z. split; [intros []|intros [x [H _]]; lia].
+    - destruct (Hd lo ltac:(lia)) as (l & Hl).
+      destruct (IH (lo + 1) ltac:(intros x Hx; apply Hd; lia)) as (L & HL & HLs).
+      assert (Hc : ceq lo = l) by (unfold ceq; rewrite Hl; reflexivity).
+      exists (l ++ L). split.
+      + cbn [equivalences_of_range]. rewrite Hl. cbn [bind]. rewrite HL. cbn [bind]. rewrite map_app. reflexivity.
+      + intros z. rewrite in_app_iff. rewrite HLs. split.
+        * intros [H|[x [Hx Hz]]].
+          -- exists lo. split; [lia|]. rewrite Hc. exact H.
+          -- exists x. split; [lia|exact Hz].
+        * intros [x [Hx Hz]]. destruct (x =? lo) eqn:E.
+          -- assert (x = lo) by lia. subst x. left. rewrite Hc in Hz. exact Hz.
+          -- right. exists x. split; [lia|exact Hz].
+  Qed.
+
+  Lemma equivalences_of_ranges_gen : forall rs,
+    (forall x, mem rs x = true -> exists l, case_equivalences simple_fold orbit_fuel x = Ok l) ->
+    exists L, equivalences_of_ranges simple_fold orbit_fuel rs = Ok (map (fun x : Z => (x, x)) L) /\
+              forall z, In z L <-> exists x, mem rs x = true /\ In z (ceq x).
+  Proof.
+    induction rs as [|[a b] t IH]; intros Hd.
+    - exists []. split; [reflexivity|]. intros z. split; [intros []|intros [x [H _]]; discriminate].
+    - assert (Hr : forall x, a <= x <= b <-> in_range (a, b) x = true) by (intros x; unfold in_range; cbn; lia).
+      destruct (equivalences_of_range_gen (Z.to_nat (b - a + 1)) a) as (L1 & H1 & H1s).
+      { intros x Hx. apply Hd. rewrite mem_cons. apply orb_true_iff. left. apply Hr. lia. }
+      destruct IH as (L2 & H2 & H2s).
+      { intros x Hx. apply Hd. rewrite mem_cons. rewrite Hx. apply orb_true_r. }
+      exists (L1 ++ L2). split.
+      + cbn [equivalences_of_ranges]. rewrite H1. cbn [bind]. rewrite H2. cbn [bind]. rewrite map_app. reflexivity.
+      + intros z. rewrite in_app_iff, H1s, H2s. split.
+        * intros [[x [Hx Hz]]|[x [Hx Hz]]]; exists x; (split; [|exact Hz]); rewrite mem_cons.
+          -- apply orb_true_iff. left. apply Hr. lia.
+          -- rewrite Hx. apply orb_true_r.
+        * intros [x [Hx Hz]]. rewrite mem_cons in Hx. apply orb_prop in Hx. destruct Hx as [Hx|Hx].
+          -- left. exists x. split; [apply Hr in Hx; lia|exact Hz].
+          -- right. exists x. split; auto.
+  Qed.
+
+  (* a rune of the table, or (B) a code point outside it: its orbit is enumerated, and stays on its side *)
+  Lemma ceq_ok x : valid_rune x -> In x dom_t \/ B ->
+    (exists l, case_equivalences simple_fold orbit_fuel x = Ok l) /\
+    forall z, In z (ceq x) -> valid_rune z /\
+              ((In x dom_t /\ In z dom_t /\ In z (tl (orb x))) \/ (B /\ ~ In x dom_t /\ ~ In z dom_t)).
+  Proof.
+    intros Hv Hx. destruct (dom_dec x) as [Hd|Hn].
+    - destruct (case_equivalences_agree cat_in simple_fold to_lower agree x Hd) as (l & Hl & Ho).
+      split; [exists l; exact Hl|]. intros z Hz. unfold ceq in Hz. rewrite Hl in Hz.
+      assert (Hzo : In z (tl (orb x))) by (rewrite <- Ho; exact Hz).
+      assert (Hzd : In z dom_t) by (apply (orb_in_dom x z Hd); rewrite <- Ho; right; exact Hz).
+      split; [apply dom_valid; exact Hzd|]. left. auto.
+    - destruct Hx as [Hx|HB]; [contradiction|].
+      destruct (Hout HB x Hv Hn) as (l & Hl & Hls).
+      split; [exists l; exact Hl|]. intros z Hz. unfold ceq in Hz. rewrite Hl in Hz.
+      destruct (Hls z Hz) as [Z1 Z2]. split; [exact Z1|]. right. auto.
+  Qed.
+
+  (* ---------------------------------------------------------------- canonicalize when nothing flips *)
+  Lemma canon_neg' c : neg c = true -> canonicalize cat_in c = set_ranges c (merged (ranges c)).
+  Proof.
+    intros Hn. rewrite canonicalize_unfold. destruct (ranges c) as [|r t] eqn:Er.
+    - destruct c; cbn in *; subst; reflexivity.
+    - rewrite <- Er.
+      set (c0 := set_ranges c (merged (ranges c))). assert (H0 : neg c0 = true) by exact Hn.
+      unfold normal_form_1. rewrite H0. cbn [negb andb].
+      unfold normal_form_2. rewrite H0. cbn [negb andb].
+      unfold normal_form_3. rewrite H0. reflexivity.
+  Qed.
+
+  Lemma canon_plain c : wf_ranges (ranges c) ->
+    (neg c = true \/ forall y, mem (ranges c) y = true -> In y dom_t) ->
+    canonicalize cat_in c = set_ranges c (merged (ranges c)).
+  Proof.
+    intros Hw [Hn|Hb]; [apply canon_neg'; exact Hn|].
+    apply (canonicalize_bounded cat_in simple_fold to_lower agree c Hw).
+    intros y Hy. apply (dom_bounds y). apply Hb. exact Hy.
+  Qed.
 
   Section OneClass.
     Variable R : list (Z * Z).
     Hypothesis Hw : wf_ranges R.
-    Hypothesis Hg : forall x, mem R x = true -> In x good_dom.
+    Hypothesis Hg : okp (mem R).
+    Hypothesis Hs : forall x, In (x, x) R -> In x good_dom.
 
-    Lemma member_good x r : In r R -> fst r <= x <= snd r -> In x dom_t /\ good_pt x = true.
-    Proof. intros Hr Hx. apply (proj1 (good_dom_In x)). apply Hg. apply (proj2 (mem_true_iff R x)). exists r. auto. Qed.
+    Lemma in_R_mem r x : In r R -> fst r <= x <= snd r -> mem R x = true.
+    Proof. intros Hr Hx. apply (proj2 (mem_true_iff R x)). exists r. auto. Qed.
+
+    (* the lcTable image of a member covered by a table entry: sound, and inside the code points *)
+    Lemma member_op e x : mem R x = true -> In e lc_table -> entry_covers e x ->
+      0 <= entry_op e x <= max_rune /\
+      exists x', mem R x' = true /\ (entry_op e x = x' \/ (In x' dom_t /\ In (entry_op e x) (orb x'))).
+    Proof.
+      intros Hx He Hc.
+      assert (Good : In x good_dom ->
+                     0 <= entry_op e x <= max_rune /\
+                     exists x', mem R x' = true /\ (entry_op e x = x' \/ (In x' dom_t /\ In (entry_op e x) (orb x')))).
+      { intros G. destruct (proj1 (good_dom_In x) G) as [Hd Hgood].
+        destruct (good_pt_facts x Hgood) as (_ & _ & Ho). specialize (Ho e He Hc).
+        pose proof (dom_bounds _ (orb_in_dom x _ Hd Ho)) as Bd.
+        split; [lia|]. exists x. split; [exact Hx|]. right. auto. }
+      destruct (Hg x Hx) as [G|(HB & Hv & Hcov & Hi)]; [exact (Good G)|].
+      destruct (x <? 128) eqn:E; [apply Good; apply ascii_good; unfold valid_rune in Hv; lia|].
+      destruct (lc_big_facts e x He Hc ltac:(lia)) as [[-> Hop]|Hop].
+      - rewrite Hop. split; [unfold max_rune; lia|]. destruct Hi as [Hi|Hi].
+        + exists 105. split; [exact Hi|]. left. reflexivity.
+        + exists 73. split; [exact Hi|]. right. exact i_in_orb_I.
+      - split; [unfold max_rune; lia|]. exists (entry_op e x). split; [|left; reflexivity].
+        apply Hcov. lia.
+    Qed.
 
     (* every emitted range: shape, well-formedness, soundness *)
     Lemma lowered_range_facts p q : In (p, q) (lowered R) ->
       wf_range (p, q) /\
-      forall y, p <= y <= q -> exists x, mem R x = true /\ In y (orb x).
+      forall y, p <= y <= q -> exists x, mem R x = true /\ (y = x \/ (In x dom_t /\ In y (orb x))).
     Proof.
       unfold lowered. intros Hin. apply in_app_or in Hin. destruct Hin as [Hin|Hin].
       - apply in_map_iff in Hin. destruct Hin as [[a b] [Hf Hr]]. unfold lower_single in Hf; cbn [fst snd] in Hf.
-        unfold wf_ranges in Hw. rewrite Forall_forall in Hw. destruct (Hw _ Hr) as (W1 & W2 & W3); cbn [fst snd] in *.
+        pose proof Hw as Hw'. unfold wf_ranges in Hw'. rewrite Forall_forall in Hw'. destruct (Hw' _ Hr) as (W1 & W2 & W3); cbn [fst snd] in *.
         destruct (a =? b) eqn:E.
         + assert (a = b) by lia. subst b. injection Hf as <- <-.
-          destruct (member_good a (a, a) Hr ltac:(cbn; lia)) as [Hd Hgood].
+          destruct (proj1 (good_dom_In a) (Hs a Hr)) as [Hd Hgood].
           destruct (good_pt_facts a Hgood) as (_ & Hl & _).
           rewrite (proj2 (agree a Hd)).
           pose proof (dom_bounds _ (orb_in_dom a _ Hd Hl)) as Hb.
           split; [unfold wf_range; cbn [fst snd]; lia|].
-          intros y Hy. assert (y = lower_t a) by lia. subst y. exists a. split; [|exact Hl].
-          apply mem_true_iff. exists (a, a). split; [exact Hr|cbn; lia].
+          intros y Hy. assert (y = lower_t a) by lia. subst y. exists a. split; [|right; auto].
+          apply (in_R_mem (a, a)); [exact Hr|cbn; lia].
         + injection Hf as <- <-. split; [unfold wf_range; cbn [fst snd]; lia|].
-          intros y Hy. exists y. split; [apply mem_true_iff; exists (a, b); split; [exact Hr|cbn; lia]|apply orb_refl].
+          intros y Hy. exists y. split; [apply (in_R_mem (a, b)); [exact Hr|cbn; lia]|left; reflexivity].
       - apply in_flat_map in Hin. destruct Hin as [[a b] [Hr Hin]]. apply filter_In in Hr. destruct Hr as [Hr Hm].
         unfold is_multi in Hm; cbn [fst snd] in Hm, Hin.
-        unfold wf_ranges in Hw. rewrite Forall_forall in Hw. destruct (Hw _ Hr) as (W1 & W2 & W3); cbn [fst snd] in *.
-        destruct (lowercase_range_shape a b p q W2 Hin) as ([[[lmin lmax] op] data] & mn & mx & He & C1 & C2 & B1 & B2 & B3 & -> & ->).
-        cbn [entry_covers entry_op] in *.
-        assert (Hpt : forall x, mn <= x <= mx -> In x dom_t /\ In (op_apply op data x) (orb x)).
-        { intros x Hx. destruct (member_good x (a, b) Hr ltac:(cbn; lia)) as [Hd Hgood].
-          destruct (good_pt_facts x Hgood) as (_ & _ & Ho). split; [exact Hd|].
-          apply (Ho (lmin, lmax, op, data) He). cbn. lia. }
-        destruct (Hpt mn ltac:(lia)) as [Dmn Omn]. destruct (Hpt mx ltac:(lia)) as [Dmx Omx].
-        pose proof (dom_bounds _ Dmn) as Bmn.
-        pose proof (dom_bounds _ (orb_in_dom mn _ Dmn Omn)) as Bp.
-        pose proof (dom_bounds _ (orb_in_dom mx _ Dmx Omx)) as Bq.
-        pose proof (op_monotone op data mn mx ltac:(lia) B2) as Hmono.
+        pose proof Hw as Hw'. unfold wf_ranges in Hw'. rewrite Forall_forall in Hw'. destruct (Hw' _ Hr) as (W1 & W2 & W3); cbn [fst snd] in *.
+        destruct (lowercase_range_shape a b p q W2 Hin) as (e & mn & mx & He & C1 & C2 & B1 & B2 & B3 & -> & ->).
+        assert (Hcov : forall x, mn <= x <= mx -> entry_covers e x).
+        { intros x Hx. destruct e as [[[lmin lmax] op] data]. cbn [entry_covers] in *. lia. }
+        assert (Hpt : forall x, mn <= x <= mx ->
+                  0 <= entry_op e x <= max_rune /\
+                  exists x', mem R x' = true /\ (entry_op e x = x' \/ (In x' dom_t /\ In (entry_op e x) (orb x')))).
+        { intros x Hx. apply member_op; [apply (in_R_mem (a, b)); [exact Hr|cbn; lia]|exact He|apply Hcov; exact Hx]. }
+        destruct (Hpt mn ltac:(lia)) as [Bp _]. destruct (Hpt mx ltac:(lia)) as [Bq _].
+        assert (Hmono : entry_op e mn <= entry_op e mx).
+        { destruct e as [[[lmin lmax] op] data]. cbn [entry_op]. apply op_monotone; lia. }
         split; [unfold wf_range; cbn [fst snd]; lia|].
-        intros y Hy. destruct (op_interval op data mn mx y ltac:(lia) B2 Hy) as [Hin'|[x [Hx ->]]].
-        + exists y. split; [apply mem_true_iff; exists (a, b); split; [exact Hr|cbn; lia]|apply orb_refl].
-        + exists x. split; [apply mem_true_iff; exists (a, b); split; [exact Hr|cbn; lia]|apply (Hpt x Hx)].
+        intros y Hy.
+        assert (Hint : (mn <= y <= mx) \/ exists x, mn <= x <= mx /\ y = entry_op e x).
+        { destruct e as [[[lmin lmax] op] data]. cbn [entry_op] in *. apply op_interval; lia. }
+        destruct Hint as [Hin'|[x [Hx ->]]].
+        + exists y. split; [apply (in_R_mem (a, b)); [exact Hr|cbn; lia]|left; reflexivity].
+        + apply (Hpt x Hx).
     Qed.
 
     Lemma lowered_wf : wf_ranges (lowered R).
     Proof. unfold wf_ranges. apply Forall_forall. intros [p q] H. apply (lowered_range_facts p q H). Qed.
 
-    Lemma lowered_sound y : mem (lowered R) y = true -> exists x, mem R x = true /\ In y (orb x).
+    Lemma lowered_sound y : mem (lowered R) y = true ->
+      exists x, mem R x = true /\ (y = x \/ (In x dom_t /\ In y (orb x))).
     Proof.
       intros H. apply mem_true_iff in H. destruct H as [[p q] [Hin Hy]]. cbn [fst snd] in Hy.
       apply (lowered_range_facts p q Hin). exact Hy.
     Qed.
 
-    Lemma lowered_in_dom y : mem (lowered R) y = true -> In y dom_t.
+    Lemma lowered_dom_or_B y : mem (lowered R) y = true -> In y dom_t \/ B.
     Proof.
-      intros H. destruct (lowered_sound y H) as (x & Hx & Hy).
-      apply (orb_in_dom x y); [|exact Hy]. exact (proj1 (proj1 (good_dom_In x) (Hg x Hx))).
+      intros H. destruct (lowered_sound y H) as (x & Hx & [->|[Hd Hy]]).
+      - destruct (Hg x Hx) as [G|(HB & _)]; [left; exact (proj1 (proj1 (good_dom_In x) G))|right; exact HB].
+      - left. apply (orb_in_dom x y Hd Hy).
     Qed.
 
-    Lemma lowered_covers x : mem R x = true -> exists y, mem (lowered R) y = true /\ In x (orb y).
+    Lemma lowered_in_dom y : (forall x, mem R x = true -> In x good_dom) -> mem (lowered R) y = true -> In y dom_t.
     Proof.
-      intros H. destruct (proj1 (good_dom_In x) (Hg x H)) as [Hd Hgood].
+      intros Hall H. destruct (lowered_sound y H) as (x & Hx & Hy).
+      pose proof (proj1 (proj1 (good_dom_In x) (Hall x Hx))) as Hd.
+      destruct Hy as [->|[_ Hy]]; [exact Hd|]. apply (orb_in_dom x y Hd Hy).
+    Qed.
+
+    Lemma lowered_covers x : mem R x = true -> In x dom_t ->
+      exists y, mem (lowered R) y = true /\ In y dom_t /\ In x (orb y).
+    Proof.
+      intros H Hd.
       apply mem_true_iff in H. destruct H as [[a b] [Hr Hx]]. cbn [fst snd] in Hx.
       destruct (a =? b) eqn:E.
       - assert (a = b) by lia. subst b. assert (x = a) by lia. subst x.
+        destruct (proj1 (good_dom_In a) (Hs a Hr)) as [_ Hgood].
         destruct (good_pt_facts a Hgood) as (_ & Hl & _).
-        exists (lower_t a). split.
+        exists (lower_t a). split; [|split].
         + unfold lowered. rewrite mem_app. apply orb_true_iff. left. apply mem_true_iff.
           exists (lower_t a, lower_t a). split; [|cbn; lia].
           apply in_map_iff. exists (a, a). split; [|exact Hr].
           unfold lower_single; cbn [fst snd]. rewrite Z.eqb_refl. rewrite (proj2 (agree a Hd)). reflexivity.
+        + apply (orb_in_dom a _ Hd Hl).
         + destruct (rel_facts a Hd) as (F & _). apply (F _ Hl).
-      - exists x. split; [|apply orb_refl].
+      - exists x. split; [|split; [exact Hd|apply orb_refl]].
         unfold lowered. rewrite mem_app. apply orb_true_iff. left. apply mem_true_iff.
         exists (a, b). split; [|cbn; lia].
         apply in_map_iff. exists (a, b). split; [|exact Hr]. unfold lower_single; cbn [fst snd]. rewrite E. reflexivity.
@@ -111,11 +346,13 @@ Section Closure.
     intros Ha. unfold add_lowercase. rewrite Ha. unfold lowered, lower_single, is_multi. reflexivity.
   Qed.
 
-  (* case_equiv_closed, general form: any class over the good part of the table; the subtracted
-     class is expanded by the recursive call and passed through *)
-  Theorem ci_closure_sub c sb' :
+  (* case_equiv_closed, general form: any class whose members are admissible (okp), whose single
+     members are good, and on which canonicalize does not flip (marked negated, or every member good);
+     the subtracted class is expanded by the recursive call and passed through *)
+  Theorem ci_closure_gen c sb' :
     anything c = false -> wf_ranges (ranges c) ->
-    (forall x, mem (ranges c) x = true -> In x good_dom) ->
+    okp (mem (ranges c)) -> (forall x, In (x, x) (ranges c) -> In x good_dom) ->
+    (neg c = true \/ forall x, mem (ranges c) x = true -> In x good_dom) ->
     match sub c with
     | None => sb' = None
     | Some s => exists s', add_case_equivalences cat_in simple_fold orbit_fuel s = Ok s' /\ sb' = Some s'
@@ -124,20 +361,24 @@ Section Closure.
       add_case_equivalences cat_in simple_fold orbit_fuel (add_lowercase cat_in to_lower c) = Ok c' /\
       neg c' = neg c /\ cats c' = cats c /\ sub c' = sb' /\ anything c' = false /\ ascii c' = ascii c /\
       canonical_ranges (ranges c') /\ wf_ranges (ranges c') /\
-      forall z, In z dom_t ->
-        mem (ranges c') z = existsb (fun x => mem (ranges c) x) (orbit simple_fold orbit_fuel z).
+      (forall z, In z dom_t ->
+         mem (ranges c') z = existsb (fun x => mem (ranges c) x) (orbit simple_fold orbit_fuel z)) /\
+      (forall y, mem (ranges c') y = true -> In y dom_t \/ B).
   Proof.
-    intros Ha Hw Hg Hsub. set (R := ranges c) in *.
-    pose proof (lowered_wf R Hw Hg) as Lw.
+    intros Ha Hw Hg Hs Hflip Hsub. set (R := ranges c) in *.
+    pose proof (lowered_wf R Hw Hg Hs) as Lw.
     rewrite (add_lowercase_unfold c Ha). fold R.
-    assert (Hb1 : forall y, mem (lowered R) y = true -> y < max_rune - 1).
-    { intros y Hy. apply (dom_bounds y). apply (lowered_in_dom R Hw Hg y Hy). }
-    rewrite (canonicalize_bounded cat_in simple_fold to_lower agree (set_ranges c (lowered R))) by (cbn [ranges set_ranges]; auto).
-    cbn [ranges set_ranges]. set (R1 := merged (lowered R)).
+    assert (Hall1 : (forall x, mem R x = true -> In x good_dom) -> forall y, mem (lowered R) y = true -> In y dom_t).
+    { intros Hall y Hy. apply (lowered_in_dom R Hw Hg Hs y Hall Hy). }
+    rewrite (canon_plain (set_ranges c (lowered R))); cbn [ranges set_ranges neg]; auto.
+    2:{ destruct Hflip as [Hn|Hall]; [left; exact Hn|right; exact (Hall1 Hall)]. }
+    set (R1 := merged (lowered R)).
     assert (M1 : forall y, mem R1 y = mem (lowered R) y) by (intros y; apply merged_mem; exact Lw).
     assert (W1 : wf_ranges R1) by (apply merged_wf; exact Lw).
-    destruct (equivalences_of_ranges_spec cat_in simple_fold to_lower agree R1) as (T & HT & HTs).
-    { intros x Hx. rewrite M1 in Hx. apply (lowered_in_dom R Hw Hg x Hx). }
+    assert (D1 : forall y, mem R1 y = true -> In y dom_t \/ B).
+    { intros y Hy. rewrite M1 in Hy. apply (lowered_dom_or_B R Hw Hg Hs y Hy). }
+    destruct (equivalences_of_ranges_gen R1) as (T & HT & HTs).
+    { intros x Hx. apply (ceq_ok x (mem_valid R1 x W1 Hx) (D1 x Hx)). }
     destruct c as [rs cs sb ng an asc]. cbn [ranges sub anything neg cats ascii] in *. subst an.
     unfold set_ranges; cbn [ranges cats sub neg anything ascii]. cbn [add_case_equivalences].
     assert (Hsb : match sb with
@@ -147,47 +388,65 @@ Section Closure.
     { destruct sb as [s|]; [destruct Hsub as (s' & H1 & ->); rewrite H1; reflexivity|subst sb'; reflexivity]. }
     rewrite Hsb. cbn [bind]. rewrite HT. cbn [bind].
     set (c2 := Cls (R1 ++ map (fun x : Z => (x, x)) T) cs sb' ng false asc).
-    assert (InT : forall z, In z T -> In z dom_t).
-    { intros z Hz. apply HTs in Hz. destruct Hz as (x & Hx & Hz). rewrite M1 in Hx.
-      apply (orb_in_dom x z); [apply (lowered_in_dom R Hw Hg x Hx)|]. rewrite orb_unfold. right.
-      rewrite orb_unfold in Hz. exact Hz. }
+    assert (InT : forall z, In z T -> valid_rune z /\ (In z dom_t \/ B)).
+    { intros z Hz. apply HTs in Hz. destruct Hz as (x & Hx & Hz).
+      destruct (proj2 (ceq_ok x (mem_valid R1 x W1 Hx) (D1 x Hx)) z Hz) as [Zv [(_ & Zd & _)|(HB & _)]]; auto. }
     assert (W2 : wf_ranges (ranges c2)).
     { cbn [ranges c2]. apply wf_ranges_app; [exact W1|]. unfold wf_ranges. apply Forall_forall. intros r Hr.
-      apply in_map_iff in Hr. destruct Hr as [z [<- Hz]]. pose proof (dom_bounds z (InT z Hz)).
+      apply in_map_iff in Hr. destruct Hr as [z [<- Hz]]. destruct (InT z Hz) as [Zv _]. unfold valid_rune in Zv.
       unfold wf_range; cbn [fst snd]. lia. }
-    assert (Hb2 : forall y, mem (ranges c2) y = true -> y < max_rune - 1).
+    assert (D2 : forall y, mem (ranges c2) y = true -> In y dom_t \/ B).
     { intros y Hy. cbn [ranges c2] in Hy. rewrite mem_app in Hy. apply orb_prop in Hy. destruct Hy as [Hy|Hy].
-      - rewrite M1 in Hy. apply Hb1. exact Hy.
-      - apply mem_singles in Hy. apply (dom_bounds y (InT y Hy)). }
-    rewrite (canonicalize_bounded cat_in simple_fold to_lower agree c2 W2 Hb2).
+      - apply D1. exact Hy.
+      - apply mem_singles in Hy. apply (InT y Hy). }
+    rewrite (canon_plain c2 W2).
+    2:{ destruct Hflip as [Hn|Hall]; [left; exact Hn|right].
+        intros y Hy. cbn [ranges c2] in Hy. rewrite mem_app in Hy. apply orb_prop in Hy. destruct Hy as [Hy|Hy].
+        - rewrite M1 in Hy. apply (Hall1 Hall y Hy).
+        - apply mem_singles in Hy. apply HTs in Hy. destruct Hy as (x & Hx & Hz).
+          assert (Hxd : In x dom_t) by (rewrite M1 in Hx; apply (Hall1 Hall x Hx)).
+          apply (orb_in_dom x y Hxd). rewrite <- (ceq_dom x Hxd). right. exact Hz. }
     eexists. split; [reflexivity|]. unfold set_ranges; cbn [neg cats sub anything ascii ranges c2].
     repeat (split; [reflexivity|]).
     split; [apply merged_canonical; exact W2|]. split; [apply merged_wf; exact W2|].
-    intros z Hz. rewrite merged_mem by exact W2. cbn [ranges c2]. rewrite mem_app.
-    rewrite (orbit_agree cat_in simple_fold to_lower agree z Hz).
-    apply eq_true_iff_eq. rewrite orb_true_iff, existsb_exists. split.
-    - (* member of the result -> some orbit member of z is an original member *)
-      intros H.
-      assert (Hy : exists y, mem R1 y = true /\ In z (orb y)).
-      { destruct H as [H|H]; [exists z; split; [exact H|apply orb_refl]|].
-        apply mem_singles in H. apply HTs in H. destruct H as (y & Hy & Hzy). exists y. split; [exact Hy|].
-        rewrite orb_unfold. right. exact Hzy. }
-      destruct Hy as (y & Hy & Hzy). rewrite M1 in Hy.
-      destruct (lowered_sound R Hw Hg y Hy) as (x & Hx & Hyx).
-      destruct (proj1 (good_dom_In x) (Hg x Hx)) as [Hxd _].
-      destruct (rel_facts x Hxd) as (F & _). destruct (F y Hyx) as (_ & _ & Ftr).
-      pose proof (Ftr z Hzy) as Hzx.
-      exists x. split; [|exact Hx]. apply (F z Hzx).
-    - intros (x & Hxz & Hx).
-      destruct (rel_facts z Hz) as (Fz & _). destruct (Fz x Hxz) as (Hxd & Hzx & _).
-      destruct (lowered_covers R Hg x Hx) as (y & Hy & Hxy).
-      pose proof (lowered_in_dom R Hw Hg y Hy) as Hyd.
-      destruct (rel_facts y Hyd) as (Fy & _). destruct (Fy x Hxy) as (_ & _ & Ftr).
-      pose proof (Ftr z Hzx) as Hzy.
-      rewrite <- M1 in Hy.
-      rewrite orb_unfold in Hzy. destruct Hzy as [<-|Hzy]; [left; exact Hy|].
-      right. apply mem_singles. apply HTs. exists y. split; [exact Hy|]. rewrite orb_unfold. exact Hzy.
+    split.
+    - intros z Hz. rewrite merged_mem by exact W2. cbn [ranges c2]. rewrite mem_app.
+      rewrite (orbit_agree cat_in simple_fold to_lower agree z Hz).
+      apply eq_true_iff_eq. rewrite orb_true_iff, existsb_exists. split.
+      + (* member of the result -> some orbit member of z is an original member *)
+        intros H.
+        assert (Hy : exists y, mem R1 y = true /\ In y dom_t /\ In z (orb y)).
+        { destruct H as [H|H]; [exists z; split; [exact H|split; [exact Hz|apply orb_refl]]|].
+          apply mem_singles in H. apply HTs in H. destruct H as (y & Hy & Hzy). exists y. split; [exact Hy|].
+          destruct (proj2 (ceq_ok y (mem_valid R1 y W1 Hy) (D1 y Hy)) z Hzy) as [_ [(Yd & _ & Zo)|(_ & _ & Zn)]]; [|contradiction].
+          split; [exact Yd|]. rewrite orb_unfold. right. rewrite orb_unfold in Zo. exact Zo. }
+        destruct Hy as (y & Hy & Hyd & Hzy). rewrite M1 in Hy.
+        destruct (lowered_sound R Hw Hg Hs y Hy) as (x & Hx & Hyx).
+        assert (Hxd : In x dom_t /\ In y (orb x)).
+        { destruct Hyx as [->|[Hxd Hyx]]; [split; [exact Hyd|apply orb_refl]|auto]. }
+        destruct Hxd as [Hxd Hyx'].
+        destruct (rel_facts x Hxd) as (F & _). destruct (F y Hyx') as (_ & _ & Ftr).
+        pose proof (Ftr z Hzy) as Hzx.
+        exists x. split; [|exact Hx]. apply (F z Hzx).
+      + intros (x & Hxz & Hx).
+        destruct (rel_facts z Hz) as (Fz & _). destruct (Fz x Hxz) as (Hxd & Hzx & _).
+        destruct (lowered_covers R Hs x Hx Hxd) as (y & Hy & Hyd & Hxy).
+        destruct (rel_facts y Hyd) as (Fy & _). destruct (Fy x Hxy) as (_ & _ & Ftr).
+        pose proof (Ftr z Hzx) as Hzy.
+        rewrite <- M1 in Hy.
+        rewrite orb_unfold in Hzy. destruct Hzy as [<-|Hzy]; [left; exact Hy|].
+        right. apply mem_singles. apply HTs. exists y. split; [exact Hy|].
+        pose proof (ceq_dom y Hyd) as Hc. rewrite orb_unfold in Hc. injection Hc as Hc. rewrite Hc. exact Hzy.
+    - intros y Hy. rewrite merged_mem in Hy by exact W2. apply D2. exact Hy.
   Qed.
+
+End Closure.
+
+(* the statement over the good part of the table alone (no big members: B := False) *)
+Section ClosureGood.
+  Variable cat_in : Z -> Z -> bool.
+  Variable simple_fold to_lower : Z -> Z.
+  Hypothesis agree : forall x, In x dom_t -> simple_fold x = fold_t x /\ to_lower x = lower_t x.
 
   Theorem ci_closure c :
     anything c = false -> sub c = None -> wf_ranges (ranges c) ->
@@ -199,7 +458,12 @@ Section Closure.
       forall z, In z dom_t ->
         mem (ranges c') z = existsb (fun x => mem (ranges c) x) (orbit simple_fold orbit_fuel z).
   Proof.
-    intros Ha Hs Hw Hg. apply ci_closure_sub; auto. rewrite Hs. reflexivity.
+    intros Ha Hs Hw Hg.
+    destruct (ci_closure_gen cat_in simple_fold to_lower agree False (fun f => match f with end) c None)
+      as (c' & H1 & H2 & H3 & H4 & H5 & H6 & H7 & H8 & H9 & _); auto.
+    - apply okp_good. exact Hg.
+    - intros x Hx. apply Hg. apply mem_true_iff. exists (x, x). split; [exact Hx|cbn; lia].
+    - rewrite Hs. reflexivity.
+    - exists c'. repeat (split; [assumption|]). exact H9.
   Qed.
-
-End Closure.
+End ClosureGood.
